@@ -246,4 +246,34 @@ def extra_obligations(repo, D, pid):
     obs = fresh.obligations(repo, SNAPSHOT_FIELDS, tags)
     # returned x / resid / Jacobian of the live entry are copies (the caller may keep them across later model updates)
     obs += fresh.returns_fresh(repo, 'Model.get_final_results', [0, 1, 3], tags)
+    # A-alias (arrays are modelled by value) needs: no statement of a Model method reads a VIEW of an array on its right-hand side that the same statement overwrites through another
+    # target (a[i, :], a[j, :] = a[j, :], a[i, :] exchanges nothing: the second read sees the first write).  Basic-index reads (ints / slices) are views; fancy-index reads
+    # (a[[i, j]]) and .copy() are copies.
+    import ast, z3
+    from pyvc.core import Ob
+    for qual, f in sorted(repo.funcs.items()):
+        if f.cls != 'Model':
+            continue
+        k = 0
+        for n in ast.walk(f.node):
+            if not (isinstance(n, ast.Assign) and len(n.targets) == 1 and isinstance(n.targets[0], ast.Tuple) and isinstance(n.value, ast.Tuple)):
+                continue
+            tg, vals = n.targets[0].elts, n.value.elts
+            k += 1
+            bad = []
+            for i, t in enumerate(tg):
+                if not isinstance(t, ast.Subscript):
+                    continue
+                base = ast.unparse(t.value)
+                for j, v in enumerate(vals):
+                    if j <= i:
+                        continue        # a value read for an EARLIER target position cannot be affected by this store... (all right-hand sides are evaluated first, but views stay live)
+                    pass
+                for j, v in enumerate(vals):
+                    if isinstance(v, ast.Subscript) and ast.unparse(v.value) == base and j != i:
+                        idx = v.slice.elts if isinstance(v.slice, ast.Tuple) else [v.slice]
+                        if not any(isinstance(x, ast.List) for x in idx):      # basic indexing: a view of the array that target i writes into
+                            bad.append('%s is a view of %s, which the same statement writes through %s' % (ast.unparse(v), base, ast.unparse(t)))
+            obs.append(Ob('%s/fresh[tuple assignment #%d reads no view of an array it also writes (arrays by value)]' % (qual, k), 'fresh', qual, ['C17', 'C03'], [],
+                          z3.BoolVal(not bad), n.lineno, 'unsat', {'syntactic': True, 'why': '; '.join(bad[:2])}))
     return obs
